@@ -280,6 +280,8 @@ var (
 	bA = hs.Mk("a", []byte("blob a"), "")
 	bB = hs.Mk("b", []byte("blob bb"), "")
 	bE = hs.Mk("empty", []byte{}, "") // the empty blob: its queue row has the value "0"
+	bC = hs.Mk("c", []byte("blob ccc"), "")
+	bD = hs.Mk("d", []byte("blob dddd"), "")
 )
 
 type program struct {
@@ -299,6 +301,9 @@ var programs = []program{
 	{name: "queued-a,restart||upload-b", uploads: [][]hs.Blob{{bB}}, preload: []hs.Blob{bA}},
 	{name: "two-destinations/upload-a", uploads: [][]hs.Blob{{bA}}, ndst: 2},
 	{name: "queued-empty,restart||upload-b", uploads: [][]hs.Blob{{bB}}, preload: []hs.Blob{bE}},
+	// a backlog larger than one round takes (batch size and channel buffers are scaled down to
+	// 2/2/1 in this build): every round must end and the next one must take the rest
+	{name: "backlog5,restart", preload: []hs.Blob{bA, bB, bC, bD, bE}},
 }
 
 func scenario(p program, bound, cbound int) *sched.Config {
